@@ -471,9 +471,9 @@ func TestC11(t *testing.T) {
 						nm2["unused.Name"] = "unused.WireName"
 						// (the new map stays complete: an encoder enters a class it does not find into its map, which
 						// it may do to a map that lacks it)
+						handedNM, handedNMModel = nm2, copyNames(nm2)
 						e.RegisterNameMap(nm2)
 						instNM = nm2
-						handedNM, handedNMModel = nm2, copyNames(nm2)
 					} else {
 						tm2 := map[string]reflect.Type{}
 						for k, v := range instTM {
@@ -481,12 +481,12 @@ func TestC11(t *testing.T) {
 						}
 						tm2["unused.OtherEntry"] = reflect.TypeOf(&zoo.K00{})
 						delete(tm2, "unused.PointerEntry") // an entry the instance has and the new map lacks
-						d.RegisterTypeMap(tm2)
-						instTM = tm2
 						handedTM, handedTMModel = tm2, map[string]reflect.Type{}
 						for k, v := range tm2 {
 							handedTMModel[k] = v
 						}
+						d.RegisterTypeMap(tm2)
+						instTM = tm2
 					}
 					replacedMaps = true
 					note("replace-maps", -1)
